@@ -147,21 +147,24 @@ for sh in [(0, 0, 3, 0, 0), (0, 1, 3, 0, 0), (1, 0, 1, 0, 1), (2, 0, 3, 0, 1), (
     c13_cases.append(case("upload %s" % (sh,), "VerifC13Upload", sh, ["uploaded"], Q))
 for sh in [(0, 0, 2, 1, 0), (0, 1, 2, 1, 0), (1, 0, 1, 1, 1), (2, 0, 1, 1, 1)]:
     c13_cases.append(case("upload with one I/O fault %s" % (sh,), "VerifC13Upload", sh, ["uploaded", "failed"], Q))
-for sh in [(2, 0, 2, 2, 1), (0, 1, 3, 2, 0), (1, 1, 2, 2, 0)]:
+for sh in [(2, 0, 2, 2, 1), (0, 1, 3, 2, 0), (1, 1, 2, 2, 0), (2, 1, 3, 2, 0), (0, 0, 2, 3, 0), (2, 0, 2, 3, 1), (0, 0, 6, 1, 0)]:
     c13_cases.append(case("upload with two I/O faults %s" % (sh,), "VerifC13Upload", sh, ["uploaded", "failed"], T))
 # Reupload: (n, m, shortReads)
 for sh in [(0, 0, 0), (1, 1, 0), (3, 3, 1), (3, 2, 1), (2, 3, 0), (0, 1, 0), (1, 0, 0)]:
     same = sh[0] == sh[1]
     c13_cases.append(case("immutable re-upload %s" % (sh,), "VerifC13Reupload", sh, (["different"] if sh[0] + sh[1] > 0 else []) + (["identical"] if same else []), Q, unwind=64, unwind_is_violation=True,
                           confirm_native={"func": "VerifC13NativeReupload", "args": [sh[0], sh[1]], "timeout": 20}))
-for sh in [(6, 6, 1), (5, 6, 1), (40, 40, 0)]:
+for sh in [(6, 6, 1), (5, 6, 1), (10, 10, 1), (11, 10, 1), (40, 40, 0)]:
     same = sh[0] == sh[1]
     c13_cases.append(case("immutable re-upload %s" % (sh,), "VerifC13Reupload", sh, ["different"] + (["identical"] if same else []), T, unwind=128, unwind_is_violation=True))
+for sh, tiers in [((16387, 16387, 0), Q), ((16385, 16384, 0), T), ((32769, 32769, 0), T)]:
+    same = sh[0] == sh[1]
+    c13_cases.append(case("immutable re-upload across the 16384-byte chunk %s" % (sh,), "VerifC13Reupload", sh, ["different"] + (["identical"] if same else []), tiers, unwind=64, unwind_is_violation=True))
 for n in (1, 3):
     for op in (0, 1, 2):
         c13_cases.append(case("confinement key len %d op %d" % (n, op), "VerifC13Confine", [n, op], ["refused", "touched"], Q,
                               confirm_native={"func": "VerifC13NativeDotKey", "args": [], "timeout": 20}))
-for n in (4, 5):
+for n in (4, 5, 6):
     for op in (0, 1, 2):
         c13_cases.append(case("confinement key len %d op %d" % (n, op), "VerifC13Confine", [n, op], ["refused", "touched"], T))
 c13_cases.append(case("discard mutable", "VerifC13Discard", [0], ["discarded"], Q))
@@ -174,7 +177,7 @@ CHECKS["C13"] = {
         "quick": "one upload into a directory tree with 0-2 missing levels, object lengths 0-3 (symbolic bytes), with and without a previous object, fault budget 0-1 "
                  "(any single os call fails, writes may be partial); crash point and concurrent reader = every system call of the upload; re-upload lengths 0-3 with short reads; "
                  "keys of 1-3 symbolic characters over {'.','/','\\','a',NUL}",
-        "thorough": "fault budget 2, re-upload lengths up to 40, keys up to 5 characters",
+        "thorough": "fault budgets 2 and 3, object lengths up to 6, re-upload lengths up to 40 (every short-read pattern up to 11 bytes), keys up to 6 characters",
     },
     "assumptions": ["the model file system of DESIGN.md §3.3 replaces package os and the kernel (fsync makes file bytes / directory entries durable; rename is atomic in the volatile view; "
                     "power loss keeps the durable state plus any subset of un-synced effects; Read may be short and returns (0,nil) for an empty buffer)",
@@ -225,6 +228,11 @@ c04_cases = [
     case("n0=0 two submissions with (possibly the same) issuer, one fault", "VerifC03", [0, 2, 1, 0, 2, 0], ["recovered", "resumed", "acknowledged"], Q),
     case("n0=255 pool 2 unparseable certificates, one fault", "VerifC03", [255, 2, 1, 0, 0, 1], ["recovered", "resumed", "acknowledged"], Q),
     case("n0=1 issuer, one crash", "VerifC03", [1, 1, 0, 1, 2, 0], ["recovered", "resumed"], Q),
+    # VerifC04Rounds(n0, rounds, pool, faults, shape): rounds in the same instance, no restart in between
+    case("n0=0 three rounds of 0-2 entries in one instance", "VerifC04Rounds", [0, 3, 2, 0, 0], ["done"], Q),
+    case("n0=254 three rounds of 0-2 entries in one instance (across the tile boundary)", "VerifC04Rounds", [254, 3, 2, 0, 2], ["done"], Q),
+    case("n0=255 two rounds of 0-1 precertificates in one instance, one fault", "VerifC04Rounds", [255, 2, 1, 1, 1], ["done"], T),
+    case("n0=253 three rounds of 0-3 entries in one instance", "VerifC04Rounds", [253, 3, 3, 0, 0], ["done"], T),
     case("n0=254 pool 3 issuers, two faults", "VerifC03", [254, 3, 2, 0, 2, 1], ["recovered", "resumed"], T),
     case("n0=256 precertificates, fault and crash", "VerifC03", [256, 2, 1, 1, 1, 1], ["recovered", "resumed"], T),
 ]
@@ -241,8 +249,8 @@ CHECKS["C03"] = {
 CHECKS["C04"] = {
     "level": "model_checking",
     "jobs": [dict(CTLOG, harness=WORLD + ["internal_ctlog/zz_verif_c01.go", "internal_ctlog/zz_verif_c03.go"], native=False, cases=c04_cases)],
-    "bounds": {"quick": "entry shapes: certificate, precertificate, 1-2 issuers, unparseable certificates (symbolic first byte); pre-states 0, 1, 255; one fault (applied or not) or one crash",
-               "thorough": "pre-states 254, 256; pool up to 3; two faults or fault+crash"},
+    "bounds": {"quick": "entry shapes: certificate, precertificate, 1-2 issuers, unparseable certificates (symbolic first byte); pre-states 0, 1, 255; one fault (applied or not) or one crash; three consecutive rounds of 0-2 entries in the same instance from 0 and 254 leaves (every way of reaching and crossing the tile boundary)",
+               "thorough": "pre-states 254, 256; pool up to 3; two faults or fault+crash; consecutive rounds from 253 and 255 leaves, with a fault"},
     "assumptions": WORLD_ASSUME + ["exact gzip bytes and the JSON spelling of names tiles are outside the claim (their contracts are used)"],
 }
 
@@ -387,6 +395,9 @@ c08_cases = [
     case("n0=3 one tampered object: hash tiles during crash recovery", "VerifC08Tamper", [3, 1, 6, 24], ["refused to load", "loaded", "signed"], Q),
     case("n0=0 data tile and hash tile tampered consistently during crash recovery", "VerifC08Tamper", [0, 2, 7, 24], ["refused to load", "loaded", "signed"], Q),
     case("n0=1 data tile and hash tile tampered consistently during crash recovery", "VerifC08Tamper", [1, 2, 7, 24], ["refused to load", "loaded", "signed"], Q),
+    case("n0=1 right-edge data tile with authentic entries swapped or duplicated", "VerifC08Tamper", [1, 1, 8, 24], ["refused to load"], Q),
+    case("n0=3 right-edge data tile with authentic entries swapped or duplicated", "VerifC08Tamper", [3, 1, 8, 24], ["refused to load"], Q),
+    case("n0=257 right-edge data tile with authentic entries swapped or duplicated", "VerifC08Tamper", [257, 1, 8, 24], ["refused to load"], T),
     case("n0=1 one tampered object: data tile (all windows)", "VerifC08Tamper", [1, 1, 3, 24], ["refused to load", "loaded", "signed"], T),
     case("n0=1 one tampered object: staging bundle (all windows)", "VerifC08Tamper", [1, 1, 4, 24], ["refused to load", "loaded", "signed"], T),
     case("n0=3 two tampered objects: hash tiles", "VerifC08Tamper", [3, 2, 2, 24], ["refused to load", "loaded", "signed"], T),
@@ -395,7 +406,7 @@ c08_cases = [
 CHECKS["C08"] = {
     "level": "model_checking",
     "jobs": [dict(CTLOG, harness=ALLW + ["internal_ctlog/zz_verif_c08.go"], native=False, cases=c08_cases)],
-    "bounds": {"quick": "pre-states of 2 and 4 leaves; one object per class (checkpoint, right-edge hash tiles, right-edge data tile, staging bundle with the lock ahead of storage, issuer) is deleted, swapped with another object, replaced by fully symbolic bytes of the same length, or truncated at a symbolic point; restart and one more round",
+    "bounds": {"quick": "pre-states of 2 and 4 leaves; one object per class (checkpoint, right-edge hash tiles, right-edge data tile, staging bundle with the lock ahead of storage, issuer) is deleted, swapped with another object, replaced by fully symbolic bytes of the same length, or truncated at a symbolic point; the right-edge data tile with two authentic entries swapped or one duplicated over another; restart and one more round; if a checkpoint is signed its root is the committed tree plus the new entry and the data tile published with it holds the committed leaves",
                "thorough": "two tampered objects of any class; pre-states 255 and 256 (arbitrary 8-byte window for long objects)"},
     "assumptions": WORLD_ASSUME + ["tampering is applied to what Fetch returns during the restart and the following round", "comparison is on Merkle-covered content; a tampered data tile that keeps the covered fields but alters uncovered ones is accepted by LoadLog (observation, DESIGN.md)"],
 }
